@@ -35,6 +35,21 @@ def run(c, chk):
             for a in call.args:
                 if loads_field(f, a, '%struct.cfg_opt_t', 'name'):
                     comparers |= set(c.owners(f.name))
+    # a comparison helper split off later (e.g. one that picks strcmp or strcasecmp): its callers do the comparing
+    for h in mod.funcs.values():
+        if h.name not in c.unknown_funcs:
+            continue
+        pos = set()
+        for call in list(h.calls('strcmp')) + list(h.calls('strcasecmp')):
+            for a in call.args:
+                if a.kind == 'reg' and a.name in [p_.name for p_ in h.params]:
+                    pos.add([p_.name for p_ in h.params].index(a.name))
+        if not pos:
+            continue
+        for f in mod.funcs.values():
+            for call in f.calls(h.name):
+                if any(k < len(call.args) and loads_field(f, call.args[k], '%struct.cfg_opt_t', 'name') for k in pos):
+                    comparers |= set(c.owners(f.name))
     extra = sorted(comparers - NAME_COMPARERS)
     if extra:
         chk.fail('R11.1', 'second-resolver:%s' % ','.join(extra), c.where(c.func(extra[0])), 'option names are also compared in %s(): a second, possibly diverging resolver' % ', '.join(extra))
@@ -82,6 +97,8 @@ def run(c, chk):
         if len(f.params) >= 2 and f.params[0].ty == '%struct.cfg_t*' and f.params[1].ty == 'i8*' and f.param_names.get(f.params[1].name) == 'name':
             if f.name in ('cfg_getopt', 'cfg_getopt_secidx', 'cfg_getopt_leaf', 'cfg_set_validate_func', 'cfg_set_validate_func2'):
                 continue
+            if f.name in c.unknown_funcs:
+                continue      # not part of the by-name API the rule was confirmed on (a helper split off later)
             nby += 1
             reach = _cfg.transitive(c.callgraph, [f.name])
             if 'cfg_getopt_secidx' not in reach:
